@@ -113,11 +113,11 @@ class WsMock:
                 elif how == "odd-length-key":
                     k["key"] = k["key"][:63]
                     self.delivered_in_malformed_document[k["guid"]] = k["key"]
-                elif how in ("empty-guid", "guid-with-path"):
+                elif how in ("empty-guid", "guid-with-path", "dot-guid"):
                     # a well-formed document whose key id cannot name a file inside the key directory
                     secret = k["key"]
                     self.delivered_in_malformed_document.pop(k["guid"], None)
-                    k["guid"] = "" if how == "empty-guid" else "../" + k["guid"]
+                    k["guid"] = {"empty-guid": "", "dot-guid": "."}.get(how, "../" + k["guid"])
                     self.delivered_in_malformed_document["odd-guid-%d" % len(self.delivered_in_malformed_document)] = secret
                 elif how == "wrong-type":
                     k["incarnationId"] = "one"
